@@ -531,6 +531,14 @@ func countedLoop(li *loopInfo) bool {
 			continue
 		}
 		phi, ok := bo.X.(*ssa.Phi)
+		if !ok {
+			// `i+1 < bound`: the index plus a constant
+			if ad, isAdd := bo.X.(*ssa.BinOp); isAdd && ad.Op == token.ADD {
+				if _, isC := ad.Y.(*ssa.Const); isC {
+					phi, ok = ad.X.(*ssa.Phi)
+				}
+			}
+		}
 		if !ok || phi.Block() != li.head {
 			continue
 		}
